@@ -478,11 +478,11 @@ func init() {
 			"writeat/negative-offset", "seek/whence=0", "seek/whence=1", "seek/whence=2", "seek/invalid-whence", "seek/before-start", "seek/beyond-end", "fault/hit-in-Write", "fault/hit-in-WriteAt",
 			"section/n=0", "attowriter", "write-after-seek", "write-after-partial-write"},
 		Families: func(c *mon.Config) []mon.Family {
-			reps := c.Pick(40, 2500)
+			reps := c.Pick(80, 12000)
 			return []mon.Family{
 				{Name: "enumerated-faults", N: len(plans) * reps, Run: func(w *mon.W, idx int) { c18History(w, plans[idx%len(plans)], idx) }},
-				{Name: "large-sections", N: c.Pick(4000, 200000), Run: c18Large},
-				{Name: "at-to-writer", N: c.Pick(2000, 80000), Run: c18AtToWriter},
+				{Name: "large-sections", N: c.Pick(10000, 1500000), Run: c18Large},
+				{Name: "at-to-writer", N: c.Pick(6000, 600000), Run: c18AtToWriter},
 			}
 		},
 	})
